@@ -172,7 +172,7 @@ class _Request:
 
     def cancel(self):
         w = self.world
-        w.sim.point('crt.cancel')
+        w.sim.spoint('crt.cancel')
         self.cancelled = True
         w.cancel_calls += 1
 
@@ -214,7 +214,7 @@ class CRTWorld:
     # ---- SimCRT ---------------------------------------------------------------
     def crt_make_request(self, kwargs):
         sim = self.sim
-        sim.point('crt.make_request')
+        sim.spoint('crt.make_request')
         t = self.transfers[self._submitting]
         if t['spec']['outcome'] == 'construct_fail' and t['spec'].get('where') == 'make_request':
             raise SimCrtError('make_request failed for t%d' % t['idx'])
@@ -229,12 +229,15 @@ class CRTWorld:
         if out > self.permits:
             self.violation('C20', 'permits-exceeded',
                            '%d CRT requests outstanding with %d permits' % (out, self.permits))
+        # the CRT runs the request on its own threads: it may finish, and call
+        # on_done, before make_request() has returned to the Python caller
+        sim.spoint('crt.made')
         return req
 
     def _event_loop(self, li):
         sim = self.sim
         while True:
-            sim.point('crt.loop')
+            sim.spoint('crt.loop')
             if not self.pending:
                 if self.driver_finished:
                     return
@@ -273,7 +276,7 @@ class CRTWorld:
             elif on_body is not None:
                 step = max(1, spec.get('chunk', 4))
                 for off in range(0, part, step):
-                    sim.point('crt.body')
+                    sim.spoint('crt.body')
                     on_body(chunk=data[off:min(part, off + step)], offset=off)
                     kw['on_progress'](min(step, part - off))
             elif kw.get('send_filepath') is not None or t['type'] == 'upload':
@@ -299,7 +302,7 @@ class CRTWorld:
             req.finished_future.set_result(None)
         req.finished = True
         t['future_resolved'] = sim.stamp()
-        sim.point('crt.between')
+        sim.spoint('crt.between')
         kw['on_done'](error=error, error_headers=None, error_body=None,
                       error_operation_name=None, status_code=None,
                       did_validate_checksum=False, checksum_validation_algorithm=None)
@@ -345,7 +348,7 @@ class CRTWorld:
                     (sim.stamp(), 'progress', bytes_transferred))
 
             def on_done(self, future, **kwargs):
-                sim.point('cb.done')
+                sim.spoint('cb.done')
                 t = world.transfers[self.tidx]
                 t['cbs'].append((sim.stamp(), 'done',
                                  future._coordinator._done_event.is_set()))
@@ -358,7 +361,7 @@ class CRTWorld:
             for t in world.transfers:
                 if t['future'] is not None and t['future']._coordinator is coord and \
                         t['type'] == 'download' and t['spec']['dst'] == 'path':
-                    temps = [x for x in world.fs.files if x.startswith(t['path'] + '.')]
+                    temps = world.fs.temps_of(t['path'])
                     t['at_complete'] = (sim.stamp(), temps)
             return real_set_complete(coord)
         crt.CRTTransferCoordinator.set_done_callbacks_complete = set_complete
@@ -567,7 +570,7 @@ def evaluate(w):
                         'were neither renamed nor removed yet' % (t['idx'], t['at_complete'][1]))
         if t['type'] == 'download' and t['spec']['dst'] == 'path':
             p = t['path']
-            temps = [x for x in w.fs.files if x.startswith(p + '.')]
+            temps = w.fs.temps_of(p)
             if temps:
                 w.violation('C20', 'temp-left',
                             't%d: temporary file(s) %r remain' % (t['idx'], temps))
